@@ -215,12 +215,16 @@ let rec walk_rel (g : dm -> dm option) st (a : dm) (b : dm) : bool =
         && List.for_all2 (fun (k, x) (k', y) -> k = k' && walk_rel g st x y) ma mb
       | _, _ -> dm_eqb a b)
 
+let mk_squirks (on : string list) : squirks =
+  { sq_edge_panics = List.mem "sep" on; sq_exhaust_unwrap = List.mem "sxu" on;
+    sq_union_nodedup = List.mem "snd" on }
+
 let do_wt id blocks root selt fn obs =
   let st = parse_blocks blocks in
   let root = dm_of_string root in
   let (s, _) = parse_sel selt 0 in
   let model_obs =
-    (match wt (wfn_of fn) st fuel s root [] with
+    (match wt (mk_squirks !current) (wfn_of fn) st fuel s root [] with
      | Ok (v, log) -> "ok:" ^ dump v ^ "#cb:" ^ String.concat "," (List.map dump log)
      | Err e -> err_name e) ^ "||pure:1||new:0" in
   let verdict =
